@@ -150,7 +150,13 @@ func main() {
 				for _, a := range r.Attempts {
 					at = append(at, fmt.Sprintf("%s=%s(%.1fs)", a.Solver, a.Result, a.Secs))
 				}
+				if len(at) > 6 {
+					at = append(at[:6], fmt.Sprintf("... (%d attempts)", len(at)))
+				}
 				fmt.Printf("FAIL %s :: %s  [%s] %s  %s\n     %s\n", r.O.Fn, r.O.Name, r.O.Pos, strings.Join(at, " "), r.File, r.O.Src)
+				for _, fp := range r.FailPath {
+					fmt.Printf("     undischarged path case: %s\n", fp)
+				}
 			} else if *verbose {
 				fmt.Printf("ok   %s :: %s  by %s %.2fs\n", r.O.Fn, r.O.Name, r.By, r.Secs)
 			}
